@@ -68,6 +68,8 @@ func main() {
 		for _, k := range ks {
 			fmt.Println(k, checks[k].level)
 		}
+	case "globals":
+		globalsMain()
 	case "c17-race":
 		c17RaceMain()
 	case "selfcheck":
